@@ -63,12 +63,12 @@ Build(F0, nms, v) ==
       carrier(i) == [k \in 1..Len(kids(i)) |-> PName(kids(i)[k])]
       seen(i) == SelectSeq(nms, LAMBDA n : Resolve(F1, i, n) # 0)
       root(i) == Len(F1[i].path) = 1
-      \* accepted qualified references: from files of the main directory, `[ns.Name]`
-      \* for every loaded file of the main directory
+      \* qualified references `[ns.Name]`: in files of the main directory, naming the file
+      \* itself or a file it imports, of the main directory
       qs(i) == IF ~root(i) THEN <<>>
                ELSE Flat([k \in 1..Len(d.order) |->
                       LET j == d.order[k] IN
-                      IF ~root(j) THEN <<>>
+                      IF ~root(j) \/ ~(j = i \/ j \in Range(ImpT(F1, i))) THEN <<>>
                       ELSE LET ns == SelectSeq(nms, LAMBDA n : n \in Rules(F1)[j])
                            IN [q \in 1..Len(ns) |-> [ns |-> F1[j].path, name |-> ns[q], form |-> "obj"]]])
       extra(i) == IF v.kind = "neg" /\ v.file = i THEN <<v.name>> ELSE <<>>
@@ -95,8 +95,10 @@ QVariants(F0, nms) ==
   LET F1 == Build(F0, nms, NoVariant) IN
   IF Cyclic(F1) THEN {}
   ELSE {v \in [kind : {"q"}, file : {1}, name : Range(nms), form : {"rule", "obj"}, target : Reach(F1)] :
-          /\ v.name \in Rules(F1)[v.target]
           /\ v.target \in Range(ImpT(F1, 1))
+          \* one name per imported file: the first of nms the file defines
+          /\ \E q \in 1..Len(nms) : /\ nms[q] = v.name /\ v.name \in Rules(F1)[v.target]
+                                     /\ \A q2 \in 1..(q - 1) : nms[q2] \notin Rules(F1)[v.target]
           /\ (v.form = "obj" => Len(F1[v.target].path) > 1)}
 
 Variants(F0, nms) ==
